@@ -84,6 +84,9 @@ func c12Scenarios(tier string) []e1lib.Scenario {
 				}
 				if tot >= 6 {
 					bound = 4
+					if cancel {
+						bound = 3
+					}
 				}
 				add(stage.Cfg{Stage: "join", Cap: cp, Inputs: ins, Cancel: cancel, Stop: -1}, bound)
 			}
@@ -99,6 +102,6 @@ func c12Scenarios(tier string) []e1lib.Scenario {
 
 func propC12() drv.Property {
 	return table("C12",
-		"one case = Join over 0..3 inputs with 0..2 distinct elements each (every combination), input capacity 0..1, one producer thread per input, one draining consumer, canceller absent or free; every interleaving of sends, closes, copier goroutines and receives explored (state-cached; quick: up to 4 elements on <=2 inputs, up to 3 on 3 inputs, unbounded; thorough: every combination up to 2+2+2, unbounded below 6 elements, preemption bound 4 at 6); the consumer loads the number of producers that have closed at the moment it observes the output's close; non-trivial = more than one distinct terminal outcome",
+		"one case = Join over 0..3 inputs with 0..2 distinct elements each (every combination), input capacity 0..1, one producer thread per input, one draining consumer, canceller absent or free; every interleaving of sends, closes, copier goroutines and receives explored (state-cached; quick: up to 4 elements on <=2 inputs, up to 3 on 3 inputs, unbounded; thorough: every combination up to 2+2+2, unbounded below 6 elements, preemption bound 4 at 6 (3 with the free canceller)); the consumer loads the number of producers that have closed at the moment it observes the output's close; non-trivial = more than one distinct terminal outcome",
 		commonAssumptions, c12Scenarios)
 }
